@@ -17,6 +17,7 @@ type Env struct {
 	lets     map[string]Expr
 	st, old  *State
 	pre      *State // loop-entry state (invariants only)
+	atEnd    bool   // local lookups see the whole current block (assert clauses at call sites)
 	frame    *Frame
 	blk      *ssa.BasicBlock
 	override map[ssa.Value]*Val
@@ -375,8 +376,9 @@ func (e *Env) evalIdent(name string) (*Val, error) {
 		}
 		return nil, fmt.Errorf("no parameter %s", name[3:])
 	}
-	// inside a function body (loop invariants) source-level locals shadow parameters
-	if e.frame != nil && e.blk != nil && e.qvar(name) == nil {
+	// inside a function body (loop invariants, call-site asserts) source-level locals shadow
+	// parameters - but never the contract's own let abbreviations, which are written over the parameters
+	if _, isLet := e.lookupLet(name); !isLet && e.frame != nil && e.blk != nil && e.qvar(name) == nil {
 		if v := e.lookupLocal(name); v != nil {
 			return v, nil
 		}
@@ -393,7 +395,16 @@ func (e *Env) evalIdent(name string) (*Val, error) {
 		}
 		e.expanding[name] = true
 		defer delete(e.expanding, name)
-		return e.eval(le)
+		// a let is an abbreviation over parameters and ghost state: locals are not visible inside it
+		ne := *e
+		ne.frame = nil
+		ne.blk = nil
+		ne.expanding = e.expanding
+		return ne.eval(le)
+	}
+	if name == "$now" {
+		// the instant returned by the latest time.Now() (ghost)
+		return scalar(c.get(e.st, "G:$now", SInt), nil), nil
 	}
 	if strings.HasPrefix(name, "$") {
 		return e.evalPseudo(name)
@@ -517,7 +528,11 @@ func (e *Env) lookupLocal(name string) *Val {
 		}
 	}
 	// walk dominators upwards, scanning backwards for DebugRefs / phis
-	for b := e.blk.Idom(); b != nil; b = b.Idom() {
+	start := e.blk.Idom()
+	if e.atEnd {
+		start = e.blk
+	}
+	for b := start; b != nil; b = b.Idom() {
 		for k := len(b.Instrs) - 1; k >= 0; k-- {
 			switch in := b.Instrs[k].(type) {
 			case *ssa.DebugRef:
@@ -993,6 +1008,10 @@ func (e *Env) evalCall(n *ECall) (*Val, error) {
 				return nil, err
 			}
 			c.sc.declareFun("implements", []Sort{SInt, SInt}, SBool)
+			if a.Typ != nil && types.IsInterface(tt) && types.IsInterface(a.Typ) && types.AssignableTo(a.Typ, tt) {
+				// statically known: every non-nil value of the static type implements the interface
+				return scalar(tNot(tEq(a.T, tNull)), boolT), nil
+			}
 			return scalar(tAnd(tNot(tEq(a.T, tNull)), tApp(SBool, "implements", tApp(SInt, "dyntype", a.T), c.typeID(tt))), boolT), nil
 		case "dom":
 			a, err := e.evalArgs(n.Args)
@@ -1111,6 +1130,12 @@ func (e *Env) applySpec(sf *SpecFunc, args []Expr) (*Val, error) {
 	a, err := e.evalArgs(args)
 	if err != nil {
 		return nil, err
+	}
+	// types and identifiers of a spec function resolve in the package that defines it
+	if sp, ok := sf.Pkg.(*types.Package); ok && sp != nil && sp != e.pkg {
+		cp := *e
+		cp.pkg = sp
+		e = &cp
 	}
 	if len(a) != len(sf.Params) {
 		return nil, fmt.Errorf("spec func %s: %d arguments, want %d", sf.Name, len(a), len(sf.Params))
